@@ -252,6 +252,19 @@ def check_case(rec, case):
         o = call(getattr(pa, name), o.value)
         if not o.ok:
             report_failure(rec, o, name, pda=RP)
+    # the same OBJECT through the copying constructions, changed in place, and through them again
+    if len(RP[0]) >= 2 and case['cls'].startswith('random'):
+        o = call(P)
+        if o.ok:
+            P0 = o.value
+            for round_ in (0, 1):
+                for name in ('pda_to_push_pop', 'pda_to_accept_on_empty_stack', 'pda_to_cfg'):
+                    o = call(getattr(pa, name), P0)
+                    if not o.ok:
+                        report_failure(rec, o, name, pda=adapt.pda_ref(P0), after_in_place_change=bool(round_))
+                if round_ == 0 and not common.mutate_in_place(P0, repr(RP)):
+                    break
+                rec.counters['requery_after_in_place_change'] += 1 - round_
     # the conversion with accepts_on_empty_stack=True, for operands that do accept on empty stack (on every word up to the bound
     # acceptance by final state and acceptance by final state AND empty stack coincide; both decided exactly by saturation)
     Lfe = pd.language_upto_empty_stack(RP, _N)
